@@ -331,6 +331,19 @@ class FrozenEdge(DirectedEdge):
         return self.vertices[1]
 
 
+class IndexedEdge(DirectedEdge):
+    """
+    User code inside the builders: an edge that works out its span from the
+    `i` its ends carry, at the moment it is made (randgraph's vertices carry
+    i = 0 .. count-1).  Used with randgraph only.
+    """
+
+    def __init__(self, v1=None, v2=None, *, uid=None, attributes=None):
+        super().__init__(v1, v2, uid=uid, attributes=attributes)
+        if v1 is not None and v2 is not None:
+            self.span = abs(v1.i - v2.i)
+
+
 class JoiningEdge(DirectedEdge):
     """User code inside the builders: a new edge joins the universes of its origin."""
 
@@ -430,6 +443,7 @@ EDGE_CLASSES = {
     "SubDirected": SubDirected,
     "SubUnDirected": SubUnDirected,
     "OtherTwoEnded": OtherTwoEnded,
+    "IndexedEdge": IndexedEdge,
     "RenamedDirected": RenamedDirected,
     "FalsyClassEdge": FalsyClassEdge,
     "FrozenEdge": FrozenEdge,
